@@ -85,6 +85,10 @@ def run(res, tier, seed):
     res.add_lemma(a, "NoError", "ideal fit-crop lies inside the source for all sizes 1..65535 and all centerings in [0,1]")
     if a["result"] != "NoError":
         raise vlib.ToolError("lemma FitLemmas!Inside: %s" % a["result"])
+    t = vlib.run_tlapm("FitProof")
+    res.add_lemma(t, "Proved", "TLAPS: the ideal fit-crop lies inside the source for ALL natural sizes and centerings in [0,1]")
+    if t["result"] != "Proved":
+        raise vlib.ToolError("TLAPS proof FitProof: %s" % t["result"])
     cases = gen(tier, rng)
     for i, c in enumerate(cases):
         c["id"] = i
